@@ -481,7 +481,9 @@ pub fn table() -> Vec<Entry> {
 		e("scan", "from-start", Key, true, |c, t| c.o().scan(t, None, false)),
 		e("scan", "delete-unconfirmed", Key, true, |c, t| c.o().scan(t, Some(1), true)),
 		e("node_height", "-", Key, true, |c, t| unit(c.o().node_height(t))),
-		e("start_updater", "-", Read, false, run_updater),
+		// the updater refreshes (writes) with the token it was started with: a wrong one must be refused by the call
+		// itself, the thread's later failure is invisible to the caller
+		e("start_updater", "-", Key, true, run_updater),
 		e("get_slatepack_address", "0", Key, true, |c, t| unit(c.o().get_slatepack_address(t, 0))),
 		e("get_slatepack_address", "7", Key, true, |c, t| unit(c.o().get_slatepack_address(t, 7))),
 		e("get_slatepack_secret_key", "0", Key, true, |c, t| unit(c.o().get_slatepack_secret_key(t, 0))),
@@ -832,7 +834,7 @@ impl Prop for WrongToken {
 	}
 	fn assumptions(&self) -> Vec<String> {
 		vec![
-			"variants that by documentation only read public bookkeeping (accounts, retrieve_txs/query_txs/retrieve_summary_info/retrieve_payment_proof without refresh, init_send_tx estimate_only, slatepack coding without sender/secret indices, start_updater) are only subject to 'changes nothing'".into(),
+			"variants that by documentation only read public bookkeeping (accounts, retrieve_txs/query_txs/retrieve_summary_info/retrieve_payment_proof without refresh, init_send_tx estimate_only, slatepack coding without sender/secret indices) are only subject to 'changes nothing'".into(),
 			"start_updater is run on a throw-away Owner over the same wallet instance and joined (status channel disconnect) before the snapshot, so the updater thread's effects are included".into(),
 			"tokens are valid secp256k1 scalars (as the JSON-RPC layer would deserialize); a generated byte string that is not is skipped (probability ~2^-128)".into(),
 		]
